@@ -31,14 +31,13 @@ def serializeTag (t : PartM) : List Str :=
   let s := if !truthy t.value && !truthy t.description then s ++ [':'] else s
   splitChar '\n' s []
 
-/-- `Counter(l).most_common(1)`: the element with the highest count, the earliest one among equals -/
-def mostCommon : List Str → Option Str
-  | [] => none
-  | l =>
-    let keys := l.eraseDups
-    keys.foldl (fun best k => match best with
-      | none => some k
-      | some b => if l.count k > l.count b then some k else some b) none
+/-- `Counter(l).most_common(1)`: the element with the highest count, the earliest one among equals
+    (walking over the list in order and replacing the candidate only by a strictly more frequent element
+    visits the distinct elements in first-occurrence order, which is the order `Counter` keeps) -/
+def mostCommon (l : List Str) : Option Str :=
+  l.foldl (fun best k => match best with
+    | none => some k
+    | some b => if l.count k > l.count b then some k else some b) none
 
 /-- the lines of the comment body, before ` * ` is put in front of them -/
 def bodyLines (b : BlockM) : List Str :=
